@@ -298,7 +298,7 @@ def parse_header(source: BinaryIO) -> Tuple[OFXHeaderType, str]:
         source.seek(0)
         decoded_source = source.read().decode(OFXHeaderV2.codec)
         header, header_end_index = OFXHeaderV2.parse(decoded_source)
-        message = decoded_source[header_end_index:]
+        message = decoded_source[header_end_index:].strip()
     else:
         logger.debug("No XML declaration - OFX version 1")
         rawheader = line + "\n"
